@@ -626,12 +626,35 @@ func (g *gen) emptyTop() bool {
 
 // ---------------------------------------------------------------- actions
 
+// inPlace reports whether the action should consume the container that is
+// already on top of the stack (possibly its last reference) instead of a copy.
+func (g *gen) inPlace(want func(kind) bool) bool {
+	return g.depth() > 0 && want(g.kindAt(0)) && g.r.Chance(1, 4)
+}
+
+// pushValueOrSelf is pushValue, but sometimes the value is the container on top
+// itself or something that contains it (direct and indirect cycles).
+func (g *gen) pushValueOrSelf() bool {
+	if g.depth() > 0 && isCompound(g.kindAt(0)) {
+		switch g.r.Intn(14) {
+		case 0:
+			return g.ins(opcode.DUP)
+		case 1:
+			return g.ins(opcode.DUP) && g.ins(opcode.PUSH1) && g.ins(opcode.PACK)
+		}
+	}
+	return g.pushValue()
+}
+
 func (g *gen) actAppend() bool {
-	return g.pushContainer(arrOrStruct) && g.pushValue() && g.ins(opcode.APPEND)
+	if !g.inPlace(arrOrStruct) && !g.pushContainer(arrOrStruct) {
+		return false
+	}
+	return g.pushValueOrSelf() && g.ins(opcode.APPEND)
 }
 
 func (g *gen) actSetItem() bool {
-	if !g.pushContainer(settable) {
+	if !g.inPlace(settable) && !g.pushContainer(settable) {
 		return false
 	}
 	if g.emptyTop() && !(g.catchable() && g.r.Chance(1, 4)) {
@@ -647,11 +670,19 @@ func (g *gen) setValue() bool {
 	if g.kindAt(1) != kOther && classify(g.top(1)) == kBuf {
 		return g.pushSmall(g.r.Intn(300) - 20)
 	}
+	if isCompound(g.kindAt(1)) {
+		switch g.r.Intn(14) {
+		case 0: // the container itself
+			return g.ins(opcode.OVER)
+		case 1: // something containing the container
+			return g.ins(opcode.OVER) && g.ins(opcode.PUSH1) && g.ins(opcode.PACK)
+		}
+	}
 	return g.pushValue()
 }
 
 func (g *gen) actPickItem() bool {
-	if !g.pushContainer(indexable) {
+	if !g.inPlace(indexable) && !g.pushContainer(indexable) {
 		return false
 	}
 	if (g.emptyTop() || containerLen(g.top(0)) == 0) && !(g.catchable() && g.r.Chance(1, 3)) {
@@ -661,7 +692,7 @@ func (g *gen) actPickItem() bool {
 }
 
 func (g *gen) actRemove() bool {
-	if !g.pushContainer(isCompound) {
+	if !g.inPlace(isCompound) && !g.pushContainer(isCompound) {
 		return false
 	}
 	if g.emptyTop() && !g.r.Chance(1, 30) {
